@@ -664,6 +664,73 @@ fn high_alignment_classes(ctx: &Ctx) {
     }
 }
 
+/// Cursor<&mut [u8]> sinks at every position 0..=9 (the bytes already written through the cursor
+/// decide where the next byte lands, not how it may be moved): transfer length 1..=8 x guest
+/// address mod 8 x destination address mod 8 x position, exact and plain form.
+fn cursor_sinks(ctx: &Ctx) {
+    let mut b = Bufs::new();
+    let gptr = b.guest.as_mut_ptr();
+    let glen = b.guest.len();
+    let guest_range = (gptr as usize, gptr as usize + glen);
+    for (i, x) in b.guest.iter_mut().enumerate() {
+        *x = 0x10 + i as u8;
+    }
+    let gcopy = b.guest.clone();
+    // SAFETY: guest outlives vs
+    let vs = unsafe { VolatileSlice::new(gptr, glen) };
+    for pos in 0..=9usize {
+        for len in 1..=8usize {
+            for gm in 0..8usize {
+                for lm in 0..8usize {
+                    for exact in [true, false] {
+                        let ep = if exact { "write_all_volatile_to(Cursor<&mut [u8]> at a position)" } else { "write_volatile_to(Cursor<&mut [u8]> at a position)" };
+                        set_cur(ep, len, gm, lm);
+                        let goff = b.gbase + gm;
+                        let dest = b.lbase + 16 + lm; // index in `local` where the bytes must land
+                        for x in b.local.iter_mut() {
+                            *x = 0xee;
+                        }
+                        let l_addr = b.local.as_ptr() as usize + dest;
+                        let (r, events, position) = {
+                            let mut c = Cursor::new(&mut b.local[dest - pos..dest + len + 5]);
+                            c.set_position(pos as u64);
+                            let (r, ev) = traced(|| {
+                                if exact {
+                                    vs.write_all_volatile_to(goff, &mut c, len).map(|_| len).map_err(|e| format!("{:?}", e))
+                                } else {
+                                    vs.write_volatile_to(goff, &mut c, len).map_err(|e| format!("{:?}", e))
+                                }
+                            });
+                            (r, ev, c.position() as usize)
+                        };
+                        ctx.case(true);
+                        let g_addr = gptr as usize + goff;
+                        let mut bad: Option<(String, String)> = None;
+                        match r {
+                            Err(e) => bad = Some(("unexpected-error".into(), e)),
+                            Ok(n) if n > len || n == 0 => bad = Some(("count".into(), format!("reported {} of {} bytes", n, len))),
+                            Ok(n) => {
+                                if exact && n != len {
+                                    bad = Some(("count".into(), "exact form returned short".into()));
+                                } else if let Err(e) = judge(&events, Dir::FromGuest, g_addr, l_addr, n, guest_range) {
+                                    bad = Some(e);
+                                } else if b.local[dest..dest + n] != gcopy[goff..goff + n] || b.local[..dest].iter().any(|x| *x != 0xee) || b.local[dest + n..].iter().any(|x| *x != 0xee) || position != pos + n {
+                                    bad = Some(("data".into(), format!("the bytes did not arrive unchanged at position {}, or other bytes changed, or the cursor stands at {} instead of {}", pos, position, pos + n)));
+                                }
+                            }
+                        }
+                        if let Some((k, d)) = bad {
+                            let key = format!("C06/slice/{}/{}", ep, k);
+                            let rp = if ctx.has_failed(&key) { Value::Null } else { json!({"entry_point": ep, "len": len, "guest_addr_mod_8": gm, "destination_addr_mod_8": l_addr % 8, "cursor_position": pos}) };
+                            ctx.fail(&key, &format!("len {} guest%8={} destination%8={} cursor position {}: {}", len, gm, l_addr % 8, pos, d), rp);
+                        }
+                    }
+                }
+            }
+        }
+    }
+}
+
 /// Whole-object reads and writes (the local value is naturally aligned) at slice, region and
 /// guest-memory level, including objects that straddle a region boundary.
 fn object_classes(ctx: &Ctx) {
@@ -1067,7 +1134,7 @@ fn schedules(ctx: &Ctx) {
 
 pub fn run(tier: Tier, replay: Option<String>) -> i32 {
     let ctx = crate::new_ctx("C06", tier, "model_checking", &replay);
-    ctx.set_rule("(a) trace enumeration: for every transfer length 0..=8 x guest address mod 8 x local address mod 8 (576 classes) x 18 entry points that funnel into the byte-copy helper (write/read/write_slice/read_slice, copy_to/copy_from::<u8> and VolatileArrayRef<u8> copies with a local buffer of the same length and a longer one, &[u8]/&mut [u8]/Vec<u8>/Cursor adapters, plain and exact stream forms; buffer-level entry points also with the local buffer directly before / after the guest bytes in one allocation; Vec<u8> sinks additionally in every fill state: capacity 0..=24 x bytes already held x length 1..=8 x guest address mod 8) and for whole objects of 1..16 bytes at every guest address of two adjacent regions (incl. objects straddling the boundary) through the guest-memory layer: hook H1 records kind, address and width of every primitive volatile access; required: the guest bytes accessed are exactly the range, each once, every access naturally aligned, exactly ONE access of the full width when the length is 1/2/4/8 and both addresses are aligned to it, the data arrives, and a transfer that moved bytes without a recorded volatile access is a violation; the same rule for 10 entry points x lengths {1,2,4,8,3,16} with the guest bytes, and in turn the local buffer, at a host address with exactly 4..=46 trailing zero bits (mmap MAP_FIXED_NOREPLACE at k << tz), and at every naturally aligned position of a 4 KiB page and across the boundary to the next one; guest memory whose region starts at a guest address off the word grid (six bases): host-aligned objects around every guest and host page boundary through six guest-memory level entry points; atomic store/load for all 10 integer types at every offset: Ok iff aligned, value round-trips. (b) E3: all interleavings, with a scheduling point before every primitive access, of a writer flipping 0 <-> all-ones twice and a reader reading twice (u16, u32, u64, and a 16-byte object whose first chunk is the last aligned u64 of a region): the reader may only see the old or the new value. States = choice-tree nodes, traces = schedules executed on the real code.");
+    ctx.set_rule("(a) trace enumeration: for every transfer length 0..=8 x guest address mod 8 x local address mod 8 (576 classes) x 18 entry points that funnel into the byte-copy helper (write/read/write_slice/read_slice, copy_to/copy_from::<u8> and VolatileArrayRef<u8> copies with a local buffer of the same length and a longer one, &[u8]/&mut [u8]/Vec<u8>/Cursor adapters, plain and exact stream forms; buffer-level entry points also with the local buffer directly before / after the guest bytes in one allocation; Vec<u8> sinks additionally in every fill state: capacity 0..=24 x bytes already held x length 1..=8 x guest address mod 8; Cursor<&mut [u8]> sinks at every position 0..=9 x length x guest address mod 8 x destination address mod 8) and for whole objects of 1..16 bytes at every guest address of two adjacent regions (incl. objects straddling the boundary) through the guest-memory layer: hook H1 records kind, address and width of every primitive volatile access; required: the guest bytes accessed are exactly the range, each once, every access naturally aligned, exactly ONE access of the full width when the length is 1/2/4/8 and both addresses are aligned to it, the data arrives, and a transfer that moved bytes without a recorded volatile access is a violation; the same rule for 10 entry points x lengths {1,2,4,8,3,16} with the guest bytes, and in turn the local buffer, at a host address with exactly 4..=46 trailing zero bits (mmap MAP_FIXED_NOREPLACE at k << tz), and at every naturally aligned position of a 4 KiB page and across the boundary to the next one; guest memory whose region starts at a guest address off the word grid (six bases): host-aligned objects around every guest and host page boundary through six guest-memory level entry points; atomic store/load for all 10 integer types at every offset: Ok iff aligned, value round-trips. (b) E3: all interleavings, with a scheduling point before every primitive access, of a writer flipping 0 <-> all-ones twice and a reader reading twice (u16, u32, u64, and a 16-byte object whose first chunk is the last aligned u64 of a region): the reader may only see the old or the new value. States = choice-tree nodes, traces = schedules executed on the real code.");
     ctx.assume("one naturally aligned volatile access of <= 8 bytes is a single machine access (LLVM volatile semantics, x86-64/aarch64 single-copy atomicity); SC interleavings of whole primitive accesses");
     if ctx.replay_of.is_some() {
         println!("replay: deterministic enumeration; re-running it");
@@ -1079,6 +1146,7 @@ pub fn run(tier: Tier, replay: Option<String>) -> i32 {
     };
     crate::crash::guarded(&ctx, &describe, || slice_classes(&ctx));
     crate::crash::guarded(&ctx, &describe, || vec_sinks(&ctx));
+    crate::crash::guarded(&ctx, &describe, || cursor_sinks(&ctx));
     crate::crash::guarded(&ctx, &describe, || adjacent_classes(&ctx));
     crate::crash::guarded(&ctx, &describe, || object_classes(&ctx));
     crate::crash::guarded(&ctx, &describe, || high_alignment_classes(&ctx));
